@@ -741,7 +741,8 @@ class PteraTransformer(NodeTransformer):
         """
         stmts = [node]
         for alias in node.names:
-            name = alias.asname or alias.name
+            # "import a.b" binds the name "a"
+            name = alias.asname or alias.name.split(".")[0]
             if "." not in name:
                 name_node = ast.copy_location(
                     ast.Name(id=name, context=ast.Load()),
